@@ -115,6 +115,29 @@ func VerifUnknown(b []byte, adds [][2]int) []byte {
 	return u.Copy(b)
 }
 
+// VerifUnknownOps runs a sequence of operations on ONE unknown-field recorder taken from the
+// pool, as successive decodes reuse it: op[0] = 0 Reset, 1 Add(op[1], op[2]), 2 Copy(b),
+// 3 Size. Copy and Size append to the output (Size as a decimal string).
+func VerifUnknownOps(b []byte, ops [][3]int) [][]byte {
+	u := unknownFieldsPool.Get().(*unknownFields)
+	defer unknownFieldsPool.Put(u)
+	var out [][]byte
+	for _, o := range ops {
+		switch o[0] {
+		case 0:
+			u.Reset()
+		case 1:
+			u.Add(o[1], o[2])
+		case 2:
+			out = append(out, u.Copy(b))
+		case 3:
+			out = append(out, []byte(fmt.Sprint(u.Size())))
+		}
+	}
+	u.Reset()
+	return out
+}
+
 // VerifDispatch lists the registered fast-path routines by function name.
 func VerifDispatch() []string {
 	name := func(f appendFuncType) string {
